@@ -66,8 +66,9 @@ def gen_model(rng, fmt, headers=False):
             subs = []
             if kind == 'match':
                 idxs = [len(code[:k].encode('utf-8')) for k in range(len(code) + 1)]
-                # submatch must not start inside the leading tabs (shift rule holds for leading indentation only)
+                # tabs occur in the leading indentation only; a submatch may start inside it ("^\s*return")
                 first = len(code) - len(code.lstrip('\t'))
+                lead_sub = first > 0 and rng.random() < 0.4
                 nsub = rng.choice([1, 1, 2])
                 pos = first
                 for _s in range(nsub):
@@ -75,6 +76,9 @@ def gen_model(rng, fmt, headers=False):
                         break
                     a = rng.randint(pos, len(code) - 1)
                     z = rng.randint(a + 1, min(len(code), a + 6))
+                    if lead_sub and _s == 0 and first < len(code):
+                        a = rng.randint(0, first)
+                        z = rng.randint(first + 1, min(len(code), first + 6))
                     import unicodedata
                     # submatches start and end on grapheme boundaries (not at a combining mark)
                     while a < len(code) and unicodedata.combining(code[a]):
